@@ -18,9 +18,9 @@ META = {
         "distinct = distinct (base, variant) pairs compared"
     ),
     "assumptions": ["scope: the parsing constructors and .formatted (as anchored); look-ups and from_bban with raw strings are not judged", "verdict whitespace set {space,\\t,\\n,\\r,\\f,\\v,NBSP}; other Unicode spaces observed only"],
-    "min_distinct": {"quick": 20000, "thorough": 500000},
+    "min_distinct": {"quick": 40000, "thorough": 1500000},
 }
-SIZES = {"quick": dict(per_country=8, bics=700), "thorough": dict(per_country=300, bics=25000)}
+SIZES = {"quick": dict(per_country=20, bics=2000), "thorough": dict(per_country=1000, bics=100000)}
 
 
 def plan(tier, seed):
